@@ -1028,8 +1028,6 @@ def inadmissible(w, st):
     s = w.regs[st["reg"]]
     name = st["name"]
     pol = s.particle_objects_list()
-    if name in pmodel.NEEDS_PDG and any(p.pdg != p.pdg for ev in pol for p in ev):
-        return True
     if name == "spacetime_rapidity_cut" and any(pmodel.spacelike(p) for ev in pol for p in ev):
         return True
     return False
@@ -1128,9 +1126,6 @@ def ctor_filter_programs(rng, n):
         kind = ("p", "o", "j")[i % 3]
         if kind == "p":
             src = {"kind": "p", "events": [[pmodel.gen_spec(rng, 0.05) for _ in range(m)] for m in rich_sizes(rng)]}
-            for ev in src["events"]:
-                for sp in ev:
-                    sp.setdefault("pdg", rng.choice(pmodel.VALID_PDGS))
         else:
             src = gen_file(rng, kind)
             rows = [[(gen_oscar_row(rng, src.get("ext", False)) if kind == "o" else gen_jetscape_row(rng, src.get("parton", False)))
@@ -1518,11 +1513,6 @@ def oracle_program(prog, rng=None, stats=None):
                     check_state(s, ref, cls, "filter")
                 else:
                     pol_now = s.particle_objects_list()
-                    if name in pmodel.NEEDS_PDG and any(p.pdg != p.pdg for ev in pol_now for p in ev):
-                        # a PDG-based filter on a particle without PDG id raises `int(nan)` from inside an in-place loop of
-                        # Filter.py (events before the particle are already replaced): outside the property's quantifier
-                        # ("admissible"), reported separately — see the C04 report
-                        return fails
                     spacelike = name == "spacetime_rapidity_cut" and any(pmodel.spacelike(p) for ev in pol_now for p in ev)
                     before = deep_state(s)
                     try:
@@ -1557,6 +1547,8 @@ def oracle_program(prog, rng=None, stats=None):
                             return fails      # the call was accepted although the argument is outside the documented domain
                         if out is not s:
                             raise Fail(f"{CLSNAME[cls]}-filter-return", f"{name} did not return self")
+                        if stats is not None and name in pmodel.NEEDS_PDG and any(p.pdg != p.pdg for ev in pol_now for p in ev):
+                            stats[f"pdg-unset/{name}"] = stats.get(f"pdg-unset/{name}", 0) + 1
                         if stats is not None:
                             stats[f"call-form/{step.get('form', 'pos')}"] = stats.get(f"call-form/{step.get('form', 'pos')}", 0) + 1
                         ref["events"] = exp
@@ -1759,6 +1751,7 @@ def search(ctx, budget_s):
     for k, v in stats.items():
         ctx.count(k, v)
     ctx.cov["error_path"] = {k[len("error-path/"):]: v for k, v in sorted(stats.items()) if k.startswith("error-path/")}
+    ctx.cov["filters_on_unset_pdg"] = {k[len("pdg-unset/"):]: v for k, v in sorted(stats.items()) if k.startswith("pdg-unset/")}
     ctx.cov["call_forms"] = {k[len("call-form/"):]: v for k, v in stats.items() if k.startswith("call-form/")}
     ctx.cov["ctor_filters_order"] = dict(multi_entry_dicts=stats.get("ctor-filters/multi-entry-dicts", 0),
                                          order_sensitive=stats.get("ctor-filters/order-sensitive", 0),
